@@ -49,6 +49,8 @@ PLAN = {
             {"name": "tsan", "flavour": "tsan", "shards": 2, "shards_thorough": 16, "scale": 0.3, "timeout": 1200},
             {"name": "miri", "flavour": "miri", "shards": 10, "shards_thorough": 96, "miriflags": TB + " " + IGN, "timeout": 1200},
             {"name": "miri-drops", "flavour": "miri", "shards": 4, "shards_thorough": 32, "miriflags": TB + " " + IGN, "timeout": 1200},
+            {"name": "memcheck", "leg": "asan", "flavour": "memcheck", "shards": 2, "shards_thorough": 8, "scale_thorough": 10, "timeout": 1800},
+            {"name": "memcheck-drops", "leg": "asan-drops", "flavour": "memcheck", "shards": 2, "shards_thorough": 8, "scale_thorough": 10, "timeout": 1800},
         ],
     },
     "C13": {
@@ -81,6 +83,7 @@ PLAN = {
             {"name": "late-global", "flavour": "native", "shards": 8, "shards_thorough": 100},
             {"name": "asan", "flavour": "asan", "shards": 4, "shards_thorough": 16},
             {"name": "miri", "flavour": "miri", "shards": 8, "shards_thorough": 64, "timeout": 1200},
+            {"name": "memcheck", "leg": "asan", "flavour": "memcheck", "shards": 2, "shards_thorough": 8, "scale": 0.2, "scale_thorough": 10, "timeout": 1800},
         ],
     },
     "C04": {
@@ -96,6 +99,7 @@ PLAN = {
             {"name": "native", "flavour": "native", "shards": 4, "shards_thorough": 16},
             {"name": "miri", "flavour": "miri", "shards": 6, "shards_thorough": 32, "timeout": 1200},
             {"name": "tsan", "flavour": "tsan", "shards": 2, "shards_thorough": 8, "scale": 0.05, "timeout": 1200, "thorough_only": True},
+            {"name": "memcheck", "leg": "tsan", "flavour": "memcheck", "shards": 4, "shards_thorough": 8, "scale": 0.1, "timeout": 1800, "thorough_only": True},
         ],
     },
     "C02": {
@@ -113,6 +117,7 @@ PLAN = {
             {"name": "global", "flavour": "native", "shards": 12, "shards_thorough": 200},
             {"name": "tsan", "flavour": "tsan", "shards": 2, "shards_thorough": 16, "scale": 0.05, "timeout": 1200},
             {"name": "miri", "leg": "miri", "flavour": "miri", "shards": 12, "shards_thorough": 96, "miriflags": IGN, "timeout": 1200},
+            {"name": "memcheck", "leg": "tsan", "flavour": "memcheck", "shards": 4, "shards_thorough": 8, "scale": 0.05, "timeout": 1800, "thorough_only": True},
         ],
     },
     "C20": {
@@ -131,6 +136,7 @@ PLAN = {
             {"name": "install", "flavour": "native", "shards": 8, "shards_thorough": 64, "timeout": 120},
             {"name": "tsan", "flavour": "tsan", "shards": 2, "shards_thorough": 8, "scale": 0.1, "timeout": 1200, "thorough_only": True},
             {"name": "miri", "leg": "miri", "flavour": "miri", "shards": 8, "shards_thorough": 64, "timeout": 1200},
+            {"name": "memcheck", "leg": "tsan", "flavour": "memcheck", "shards": 4, "shards_thorough": 8, "scale": 0.05, "timeout": 1800, "thorough_only": True},
         ],
     },
     "C14": {
@@ -151,6 +157,7 @@ PLAN = {
             {"name": "asan", "flavour": "asan", "shards": 8, "shards_thorough": 16},
             {"name": "miri-sweep", "flavour": "miri", "shards": 12, "shards_thorough": 16, "timeout": 1500},
             {"name": "miri", "flavour": "miri", "shards": 4, "shards_thorough": 64, "timeout": 1500},
+            {"name": "memcheck", "leg": "random", "flavour": "memcheck", "shards": 2, "shards_thorough": 8, "scale": 0.1, "scale_thorough": 10, "timeout": 1800},
         ],
     },
     "C06": {
@@ -172,6 +179,7 @@ PLAN = {
             {"name": "tsan", "flavour": "tsan", "shards": 2, "shards_thorough": 8, "scale": 0.2, "timeout": 1200, "thorough_only": True},
             {"name": "miri", "flavour": "miri", "shards": 6, "shards_thorough": 48, "miriflags": IGN, "timeout": 1500},
             {"name": "clone-race", "flavour": "native", "shards": 2, "shards_thorough": 8, "scale_thorough": 1.0},
+            {"name": "memcheck", "leg": "tsan", "flavour": "memcheck", "shards": 4, "shards_thorough": 8, "scale": 0.1, "timeout": 1800, "thorough_only": True},
         ],
     },
     "C16": {
@@ -193,6 +201,7 @@ PLAN = {
             {"name": "tsan", "flavour": "tsan", "shards": 2, "shards_thorough": 8, "scale": 0.2, "timeout": 1200, "thorough_only": True},
             {"name": "miri", "flavour": "miri", "shards": 6, "shards_thorough": 48, "timeout": 1500},
             {"name": "consumers", "flavour": "native", "shards": 2, "shards_thorough": 8},
+            {"name": "memcheck", "leg": "miri", "flavour": "memcheck", "shards": 4, "shards_thorough": 8, "scale": 0.1, "timeout": 1800, "thorough_only": True},
         ],
     },
     "C15": {
@@ -299,6 +308,7 @@ PLAN = {
             {"name": "socket", "flavour": "native", "shards": 8, "shards_thorough": 64, "timeout": 120},
             {"name": "tsan", "flavour": "tsan", "shards": 2, "shards_thorough": 8, "timeout": 1200, "thorough_only": True},
             {"name": "miri", "flavour": "miri", "shards": 6, "shards_thorough": 48, "miriflags": TB + " " + IGN, "timeout": 1500},
+            {"name": "memcheck", "leg": "tsan", "flavour": "memcheck", "shards": 4, "shards_thorough": 8, "scale": 0.3, "timeout": 1800, "thorough_only": True},
         ],
     },
     "C19": {
@@ -318,6 +328,7 @@ PLAN = {
             {"name": "concurrent-hooks", "flavour": "native", "shards": 2, "shards_thorough": 8, "scale": 0.5},
             {"name": "miri", "flavour": "miri", "shards": 4, "shards_thorough": 32, "miriflags": TB + " " + IGN, "timeout": 1500},
             {"name": "tsan", "leg": "concurrent", "flavour": "tsan", "shards": 2, "shards_thorough": 8, "scale": 0.05, "timeout": 1200, "thorough_only": True},
+            {"name": "memcheck", "leg": "concurrent", "flavour": "memcheck", "shards": 4, "shards_thorough": 8, "scale": 0.03, "timeout": 1800, "thorough_only": True},
         ],
     },
     "C17": {
